@@ -527,7 +527,36 @@ class LuaHarness(object):
             w = self.witness(m, fail)
             w["known"] = kf
             return {"cls": cls, "violation": w, "vkey": "%s:%s" % (self.lname, kf or fail[:50])}
-        return {"cls": cls + "/called", "sample": self.witness(e.model(), None)}
+        # which metatable does this binding give to / demand from its object?  (compared across classes in main)
+        extra = None
+        if self.entry["cls"] is not None:
+            ud = [x for x in st.pushed if x[0] == "userdata"]
+            extra = {"class": getattr(self.entry["cls"], "name", str(self.entry["cls"])), "function": self.lname,
+                     "set": ud[0][1]["meta"] if (sig.is_ctor and ud) else None,
+                     "checked": getattr(st, "checked", {}).get(1) if not sig.is_ctor else None}
+        return {"cls": cls + "/called", "sample": self.witness(e.model(), None), "extra": extra}
+
+
+def metatable_verdict(extras):
+    """Every class has one metatable name, used by its constructor and demanded by its methods, and no two classes
+    share a name (luaL_checkudata tells classes apart by that name only)."""
+    per = {}
+    for x in extras:
+        if not x:
+            continue
+        for k in ("set", "checked"):
+            if x[k] is not None:
+                per.setdefault(x["class"], set()).add(x[k])
+    for c, names in sorted(per.items()):
+        if len(names) > 1:
+            return "class %s uses the metatable names %r" % (c, sorted(names)), per
+    owners = {}
+    for c, names in sorted(per.items()):
+        for n in names:
+            if n in owners and owners[n] != c:
+                return "classes %s and %s share the metatable name %r: an object of one passes the other's luaL_checkudata" % (owners[n], c, n), per
+            owners[n] = c
+    return None, per
 
 
 def make(**kw):
@@ -537,6 +566,13 @@ def make(**kw):
 def confirm(w):
     """Re-execute the harness pinned to the witness stack (the Lua runtime is not installed, so there
     is no native Lua to replay against); returns the violation text if it shows again."""
+    if w.get("kernel") == "metatables":
+        b = lc.get_build(BUILD)
+        extras = []
+        for n, ent in sorted(lua_functions(b).items()):
+            if ent["cls"] is not None:
+                extras += driver.explore(("harness.C18", "make", dict(lname=n, depth=1)), nworkers=1).extras
+        return metatable_verdict(extras)[0]
     a = driver.explore(("harness.C18", "make", dict(lname=w["function"], depth=max(w["depth"], 1))), nworkers=1)
     for v in a.violations:
         if v["depth"] == w["depth"] and [s["type"] for s in v["stack"]] == [s["type"] for s in w["stack"]]:
@@ -584,6 +620,12 @@ def main():
     twin_ok = tw.stats.paths > 0 and tw.nviol > 0 and not tw.inconclusive
     if not twin_ok:
         rep.inconc("reachability twin failed: %r" % (tw.inconclusive[:1],))
+    mt_fail, mt_names = metatable_verdict(total.extras)
+    if mt_fail:
+        path = checklib.write_replay(PID, "metatables", {"kernel": "metatables", "what": mt_fail, "names": {c: sorted(n) for c, n in mt_names.items()}})
+        rep.violation(path, "%s | names=%r" % (mt_fail, {c: sorted(n) for c, n in mt_names.items()}))
+    elif len(mt_names) < 2:
+        rep.inconc("the metatable clause needs two wrapped classes, found %r" % sorted(mt_names))
     known = {k["key"]: k for k in checklib.load_known(PID) if k.get("status") == "known"}
     seen, confirmed, printed = set(), 0, set()
     for i, v in enumerate(total.violations):
